@@ -39,6 +39,10 @@ META = {
 }
 
 
+# lemmas over the contracts, checked by Lean 4 + Mathlib on every run (lean/Lemmas.lean, rverif/lemmas.py)
+LEMMAS = ["weak_duality", "weak_duality_eq", "soc_pairing", "expcone_pairing", "expcone_pairing_boundary_right", "expcone_pairing_boundary_left"]
+
+
 def SOURCES():
     return {"rsome.lp:RoConstr.forall": source_info(lp.RoConstr.forall), "rsome.lp:RoConstr.le_to_rc": source_info(lp.RoConstr.le_to_rc),
             "rsome.ro:Model.st": source_info(ro.Model.st), "rsome.ro:Model.do_math": source_info(ro.Model.do_math),
